@@ -35,8 +35,9 @@ def main(argv=None):
         for ob, r in zip(obs, res):
             if args.verbose or r['status'] != 'discharged':
                 print('%-10s %6.2fs %s' % (r['status'], r['seconds'], ob.name))
-                if r['status'] == 'refuted' and args.verbose:
+                if r['status'] != 'discharged' and args.verbose:
                     print('    clause:', ob.meta.get('clause'))
+                    print('    path:', ob.meta.get('branches'))
             if args.dump and args.dump in ob.name:
                 open('/tmp/dump_%s.smt2' % abs(hash(ob.name)), 'w').write(ob.smt2)
                 print('dumped', ob.name)
